@@ -16,8 +16,8 @@ open KV KV.Precond KV.Spec
 /-- **ranks agree**: after every history all ranks hold identical gradients -/
 theorem ranks_agree (c : Cfg) (hc : Refine.CfgOK2 c) (h : Hyper) (ops : List Op)
     (hne : (Precond.run c (St.init c h) ops).err = none) {r r' : Nat} (hr : r < c.world) (hr' : r' < c.world) :
-    (Precond.run c (St.init c h) ops).outGrads.getD r [] = (Precond.run c (St.init c h) ops).outGrads.getD r' [] := by
-  sorry
+    (Precond.run c (St.init c h) ops).outGrads.getD r [] = (Precond.run c (St.init c h) ops).outGrads.getD r' [] :=
+  Refine.ranks_agree c hc h ops hne hr hr'
 
 /-- **placement is irrelevant**: two configurations that agree on what the reference machine sees
     (world size, number of layers, method, pre-division, accumulation, hook mode) — whatever their
@@ -27,8 +27,8 @@ theorem placement_irrelevant (c₁ c₂ : Cfg) (h₁ : Refine.CfgOK2 c₁) (h₂
     (hs : ofCfg c₁ = ofCfg c₂) (h : Hyper) (ops : List Op)
     (e₁ : (Precond.run c₁ (St.init c₁ h) ops).err = none) (e₂ : (Precond.run c₂ (St.init c₂ h) ops).err = none)
     {r r' : Nat} (hr : r < c₁.world) (hr' : r' < c₂.world) :
-    (Precond.run c₁ (St.init c₁ h) ops).outGrads.getD r [] = (Precond.run c₂ (St.init c₂ h) ops).outGrads.getD r' [] := by
-  sorry
+    (Precond.run c₁ (St.init c₁ h) ops).outGrads.getD r [] = (Precond.run c₂ (St.init c₂ h) ops).outGrads.getD r' [] :=
+  Refine.placement_irrelevant c₁ c₂ h₁ h₂ hs h ops e₁ e₂ hr hr'
 
 /-- in particular bucketing and symmetry-aware communication never change a gradient -/
 theorem bucket_sym_irrelevant (c : Cfg) (bucketed sym : Bool) (cap : Nat)
@@ -39,8 +39,9 @@ theorem bucket_sym_irrelevant (c : Cfg) (bucketed sym : Bool) (cap : Nat)
     {r : Nat} (hr : r < c.world) :
     (Precond.run c (St.init c h) ops).outGrads.getD r [] =
       (Precond.run { c with bucketed := bucketed, cap := cap, symAware := sym }
-        (St.init { c with bucketed := bucketed, cap := cap, symAware := sym } h) ops).outGrads.getD r [] := by
-  sorry
+        (St.init { c with bucketed := bucketed, cap := cap, symAware := sym } h) ops).outGrads.getD r [] :=
+  Refine.placement_irrelevant c _ hc (hc.bucket_sym bucketed sym cap)
+    (Refine.ofCfg_bucket_sym c bucketed sym cap).symm h ops e₁ e₂ hr hr
 
 /-- **union of the per-rank batches**: the average over ranks of the per-rank batch second moments
     (equal batch sizes) is the second moment of the union batch — so averaging factors over a world
@@ -49,6 +50,10 @@ theorem bucket_sym_irrelevant (c : Cfg) (bucketed sym : Bool) (cap : Nat)
 theorem cov_union {W B n : ℕ} (X : Fin W → Matrix (Fin B) (Fin n) ℚ) :
     let U : Matrix (Fin W × Fin B) (Fin n) ℚ := fun p j => X p.1 p.2 j
     (∑ r : Fin W, (X r).transpose * X r) = U.transpose * U := by
-  sorry
+  intro U
+  ext i j
+  rw [Matrix.sum_apply, Matrix.mul_apply, Fintype.sum_prod_type]
+  simp only [Matrix.mul_apply, Matrix.transpose_apply]
+  rfl
 
 end KV.C02
